@@ -29,6 +29,7 @@ func init() {
 			{ID: "C08.R6", Min: 3, Desc: "no supervision while stopping", Fn: c08NotWhileStopping},
 			{ID: "C08.R7", Min: 2, Desc: "the recorded targets are exactly the targets that were paused", Fn: c08RecordedTargets},
 			{ID: "C08.R8", Min: 1, Desc: "a restart is accepted only by a running actor: the restart marker is stored under the won CAS", Fn: c08RestartAccepted},
+			{ID: "C08.R10", Min: 3, Desc: "the suspension is effective: a paused mailbox hands no user message over (C01.R6 pause gate)", Fn: c01PauseGate},
 			{ID: "C08.R9", Min: 5, Desc: "restart re-initialisation: new instance, behaviour stack reset to it, hooks, OnLaunch (C05.R4)", Fn: c05Restart},
 		},
 	})
@@ -46,6 +47,7 @@ func init() {
 			{ID: "C09.R5", Min: 4, Desc: "zombie discipline", Fn: c09Zombie},
 			{ID: "C09.R8", Min: 4, Desc: "a failed restart hook decides: zombie, whatever later hooks return", Fn: c09HookDecides},
 			{ID: "C09.R10", Min: 3, Desc: "a directive that its target ignores strands nobody in a paused mailbox", Fn: c09IgnoredDirectives},
+			{ID: "C09.R11", Min: 2, Desc: "a restart waits for every child: a child spawned while the actor is dying is killed at once (C06.R5)", Fn: c06SpawnWhileDying},
 			{ID: "C09.R9", Min: 3, Desc: "a paused mailbox hands no user message over (C01.R6 pause gate)", Fn: c01PauseGate},
 			{ID: "C09.R7", Min: 2, Desc: "everything that was paused is recorded as a target (so the resume broadcast reaches it)", Fn: c08RecordedTargets},
 			{ID: "C09.R6", Min: 7, Desc: "paused mailbox neither spins nor misses the resume (a pending system message — the resume command — always re-arms)", Fn: func(p *Program, r *Report) { c01Release(p, r); c01NoSpin(p, r); c01Resume(p, r) }},
@@ -287,6 +289,12 @@ func c08Targets(p *Program, r *Report) {
 				for _, in := range b.Instrs {
 					if ret, ok := in.(*ssa.Return); ok {
 						c, isCall := strip(retOperand(ret, 0)).(*ssa.Call)
+						// an element-for-element copy of the set (ActorRefs.Clone / DeepClone: equal references) is the same set
+						for isCall && !c.Call.IsInvoke() && c.Call.StaticCallee() != nil && len(c.Call.Args) == 1 &&
+							(c.Call.StaticCallee().Name() == "Clone" || c.Call.StaticCallee().Name() == "DeepClone") &&
+							types.Identical(c.Call.Args[0].Type(), c.Type()) {
+							c, isCall = strip(c.Call.Args[0]).(*ssa.Call)
+						}
 						if !isCall || !c.Call.IsInvoke() || c.Call.Method.Name() != spec.accessor || strip(c.Call.Value) != ssa.Value(sup.Params[1]) {
 							good = false
 						}
@@ -1198,6 +1206,36 @@ func c08RecordedTargets(p *Program, r *Report) {
 	}
 	once, why := g.loopExactlyOnce(pauses)
 	r.Check(okP && nP > 0 && once, "the paused set is the set handed to apply-decision", s.OnSupervise.Pos(), "the pause command is told (as a system message, once per element) to the elements of the very slice that apply-decision records as targets "+why)
+	// (c) the record is made whatever the decision is, and before any effect of the decision: the resume broadcast of this or of
+	// a higher level (after an escalation) walks the chain of contexts and reaches exactly what each of them recorded
+	lc := p.lifecycle()
+	ag := p.applyGraph(s, lc)
+	rec := map[int]bool{}
+	for i, in := range ag.Nodes {
+		if st, isSt := in.(*ssa.Store); isSt && tparam != nil {
+			if f, _ := fieldAddr(st.Addr); f == s.Targets && ag.res(st.Val) == tparam {
+				rec[i] = true
+			}
+		}
+	}
+	okR := len(rec) > 0 && !anyIn(ag.Reach(ag.entry(), rec, nil), ag.Exits)
+	late := ""
+	for i, in := range ag.Nodes {
+		c := callOf(in)
+		if c == nil {
+			continue
+		}
+		y := c.StaticCallee()
+		effect := y != nil && (y == s.Broadcast || y == s.NewSupCtx || y == p.tellFunc())
+		if c.IsInvoke() && (c.Method.Name() == "Pause" || c.Method.Name() == "Kill") {
+			effect = true
+		}
+		if effect && !rec[i] && !ag.DominatedByNodes(i, rec) {
+			okR = false
+			late = " (" + p.pos(in.Pos()) + " can run before the record)"
+		}
+	}
+	r.Check(okR, "apply-decision records its targets on every path before acting", s.Apply.Pos(), "every path through apply-decision stores the handed targets into the supervision context, and no tell, broadcast, pause or escalation precedes that store: an escalated failure is resumed by the level above only through this record"+late)
 }
 
 // c08RestartAccepted: see the explanation (R8).
